@@ -30,7 +30,15 @@ fn pmap_cases() {
                 let mut got = Vec::new();
                 for _ in 0..k { if let Some(v) = it.next() { got.push(v); } }
                 drop(it);
-                let alive = threads_now() - base;
+                // `drop` joins every worker; a joined thread may still be listed in /proc/self/task for a moment
+                // (the joiner is woken before the kernel unlinks the task), so allow it a grace period
+                let mut alive = threads_now().saturating_sub(base);
+                let mut waited = 0;
+                while alive != 0 && waited < 200 {
+                    std::thread::sleep(std::time::Duration::from_millis(5));
+                    waited += 1;
+                    alive = threads_now().saturating_sub(base);
+                }
                 println!("PMAP {{\"kind\":\"drop\",\"n\":{},\"threads\":{},\"k\":{},\"out\":{:?},\"threads_alive\":{}}}", n, t, k, got, alive);
             }
         }
